@@ -84,6 +84,17 @@ Theorem C13_executable :
 Proof. exact build_executable. Qed.
 Print Assumptions C13_executable.
 
+(* "runnable" also asks that the runner can use the accepted DAG: the pointers it dereferences without a test (SMTP in
+   agent.setup; ErrorMail / InfoMail in the reporter once mailOn or a step's mailOnError asks for a mail) are set by
+   every full build *)
+Theorem C13_runner_pointers :
+  forall (cron : string -> cronv) (sig_ok : string -> bool) (tokenize : string -> list (string * string))
+         (sh : string -> option string) (o : opts) (d : definition) (base : list string) (e : envt) (g : dag),
+  outcome (build cron sig_ok tokenize sh o d base e) = Ok g -> o_metadataOnly o = false ->
+  is_some (g_smtp g) = true /\ is_some (g_errorMail g) = true /\ is_some (g_infoMail g) = true.
+Proof. exact build_runner_pointers. Qed.
+Print Assumptions C13_runner_pointers.
+
 (* evaluating conditions never crashes, whatever the expected pattern (full statement since fix 089471d) *)
 Theorem C13_conditions :
   forall (re_ok : string -> bool) (sh : string -> option string) (cond_met : string -> string -> bool)
